@@ -6,5 +6,5 @@ CONSTANTS
   WithNull = TRUE
   Elem <- ElemDef
   Units = {2, 3, 5}
-INVARIANTS Homogeneous MaskUnitFree EmitLaws
+INVARIANTS Homogeneous MaskUnitFree TransLaw EmitLaws
 CHECK_DEADLOCK FALSE
